@@ -1,0 +1,235 @@
+//go:build verif
+
+// Contracts for govc (/verif): THE KEY SPACE of package storage — every key-id function, its axiom, and the assumed contract of every key
+// constructor (graph…Key / cache…Key / nodeStateQueueKey …), exactly once. Comment-only file. Shared by C03 C04 C15 C16 C17 C20 C23 C26 C27 C28 C35.
+// T-KV model: /verif/govc/trusted/badger.spec. RULE: a new key prefix gets its declarations HERE (next free kind number), nowhere else.
+//
+// ── Conventions ──────────────────────────────────────────────────────────────────────────────────────────────────────────────────────────
+// A key id (mathint) is the abstract identity of the key's byte string (builtin kvkey; the engine uses ONE numbering of byte strings:
+// kvkey(b) == kvval(b), ext_kviter.go, which is why a stored value can be used as a key: KeyAsVal below is the identity). Hashes / keys enter a
+// key id through THEIR id kvval(h) (identity of the 32-byte string; injective, see common.HashOfVal), so that all quantifiers of the
+// key-space axioms range over integers. Every constructor is a deterministic function of its arguments, hence
+// `kvkey(result) == <Ctor>KeyId(args)` with an uninterpreted <Ctor>KeyId. The PARSE functions of a key are
+//     keykind(k)  which prefix it starts with (the kind numbers below)          keyhid(k)   id of the (last) 32-byte hash/key payload
+//     keynum(k)   the numeric payload (varint index, be64 batch/round/order/timestamp)   keynode(k)  id of the 32-byte node id payload
+// and the axioms say that parsing inverts the constructors: they imply injectivity of every constructor (where stated) and pairwise disjoint ranges.
+// Iterator users additionally need facts of the badger iterator model: badger.keypfx(k, p) == 0 (k carries prefix p), badger.keylen, kvsub
+// (a byte window of the key as a value id), badger.keylt (byte order == numeric order for fixed-width big-endian payloads of ONE prefix).
+// ALL of this is ASSUMED (argued from the constructors below, not derived from the constants by the engine).
+//
+// ── Prefix-freeness argument (byte at which two prefixes first differ; no prefix is an initial segment of another) ─────────────────────
+// snapshots DB (badger_graph.go, badger_node.go): UTXO GHOST DEPOSIT MINTUNIVERSAL TRANSACTION FINALIZATION UNIQUE SNAPSHOT TOPOLOGY SNAPTOPO
+// WORKSNAPSHOT ASSETINFO ASSETTOTAL NODESTATEQUEUE CUSTODIANUPDATE WITHDRAWAL ROUND LINK CONSENSUSSNAPSHOT NODEOPERATION WORKCHECKPOINT WORKPROPOSE
+// WORKVOTE SPACECHECKPOINT SPACEQUEUE. First bytes: U G D M T F S W A N C R L. Within one first byte:
+//   U: UTXO / UNIQUE                      byte 1 ('T' / 'N')
+//   T: TRANSACTION / TOPOLOGY             byte 1 ('R' / 'O')
+//   S: SNAPSHOT / SNAPTOPO                byte 4 ('S' / 'T');   SNAP… / SPACE…  byte 1 ('N' / 'P');   SPACECHECKPOINT / SPACEQUEUE  byte 5 ('C' / 'Q')
+//   W: WORK… / WITHDRAWAL                 byte 1 ('O' / 'I');   WORKSNAPSHOT / WORKCHECKPOINT / WORKPROPOSE / WORKVOTE  byte 4 ('S' / 'C' / 'P' / 'V')
+//   A: ASSETINFO / ASSETTOTAL             byte 5 ('I' / 'T')
+//   N: NODESTATEQUEUE / NODEOPERATION     byte 4 ('S' / 'O')
+//   C: CUSTODIANUPDATE / CONSENSUSSNAPSHOT byte 1 ('U' / 'O')
+// Every payload after a prefix has a fixed width (32-byte hashes/keys, 8-byte big-endian integers, 4-byte days) except the UTXO index
+// (binary.PutVarint, injective, last component), so equal keys have equal prefixes and equal components.
+// cache DB (badger_cache.go): CACHETRANSACTIONQUEUE CACHETRANSACTIONORDER CACHETRANSACTIONPAYLOAD differ at byte 16 ('Q' / 'O' / 'P'); a different
+// database, but the kind numbers are kept globally unique anyway.
+//
+// ── Kind numbers ─────────────────────────────────────────────────────────────────────────────────────────────────────────────────────────
+//    1 UTXO            2 GHOST            3 DEPOSIT          4 MINTUNIVERSAL    5 TRANSACTION       6 FINALIZATION
+//    7 UNIQUE          8 SNAPSHOT         9 TOPOLOGY        10 SNAPTOPO        11 WORKSNAPSHOT     12 ASSETINFO       13 ASSETTOTAL
+//   14 NODESTATEQUEUE 15 CUSTODIANUPDATE 16 WITHDRAWAL      17 ROUND           18 LINK             19 CONSENSUSSNAPSHOT
+//   RESERVED (no constructor declared yet; C26/C27 add them here): 20 NODEOPERATION   21 WORKCHECKPOINT (graphWorkOffsetKey)
+//   22 WORKPROPOSE (graphWorkLeadKey)   23 WORKVOTE (graphWorkSignKey)   24 SPACECHECKPOINT   25 SPACEQUEUE
+//   (14 NODESTATEQUEUE / 15 CUSTODIANUPDATE / 11 WORKSNAPSHOT are already used in FRAMES; their constructors nodeStateQueueKey /
+//   graphCustodianUpdateKey get their contracts here when C27 / the custodian work needs them. 26..29 free.)
+//   cache DB: 30 CACHETRANSACTIONQUEUE   31 CACHETRANSACTIONORDER   32 CACHETRANSACTIONPAYLOAD.   33.. free.
+
+package storage
+
+//@ uninterp keykind(k mathint) mathint
+//@ uninterp keyhid(k mathint) mathint
+//@ uninterp keynum(k mathint) mathint
+//@ uninterp keynode(k mathint) mathint
+//@ -- KeyAsVal(k): the value id of the byte string whose key id is k (TOPOLOGY entries hold a SNAPSHOT key, SNAPTOPO entries a TOPOLOGY key).
+//@ -- One numbering of byte strings (kvkey == kvval, engine axiom): the identity.
+//@ spec KeyAsVal(k mathint) mathint = k
+
+//@ -- ═════════ kinds 1..6 (C03/C04): UTXO|hash|varint(index)  GHOST|key  DEPOSIT|uniq  MINTUNIVERSAL|be64(batch)  TRANSACTION|hash  FINALIZATION|hash ═════════
+//@ uninterp UtxoKeyId(h mathint, i mathint) mathint
+//@ uninterp GhostKeyId(k mathint) mathint
+//@ uninterp DepositKeyId(u mathint) mathint
+//@ uninterp MintKeyId(batch mathint) mathint
+//@ uninterp TxKeyId(h mathint) mathint
+//@ uninterp FinKeyId(h mathint) mathint
+//@ axiom forall h, i mathint :: {UtxoKeyId(h, i)} keykind(UtxoKeyId(h, i)) == 1 && keyhid(UtxoKeyId(h, i)) == h && (0 <= i && i <= 1024 ==> keynum(UtxoKeyId(h, i)) == i)
+//@ axiom forall h mathint :: {GhostKeyId(h)} keykind(GhostKeyId(h)) == 2 && keyhid(GhostKeyId(h)) == h
+//@ axiom forall h mathint :: {DepositKeyId(h)} keykind(DepositKeyId(h)) == 3 && keyhid(DepositKeyId(h)) == h
+//@ axiom forall b mathint :: {MintKeyId(b)} keykind(MintKeyId(b)) == 4 && (0 <= b && b < 18446744073709551616 ==> keynum(MintKeyId(b)) == b)
+//@ axiom forall h mathint :: {TxKeyId(h)} keykind(TxKeyId(h)) == 5 && keyhid(TxKeyId(h)) == h
+//@ axiom forall h mathint :: {FinKeyId(h)} keykind(FinKeyId(h)) == 6 && keyhid(FinKeyId(h)) == h
+//@ spec UK(h crypto.Hash, i mathint) mathint = UtxoKeyId(kvval(h), i)
+//@ spec GK(k crypto.Key) mathint = GhostKeyId(kvval(k))
+//@ spec TK(h crypto.Hash) mathint = TxKeyId(kvval(h))
+//@ spec FK(h crypto.Hash) mathint = FinKeyId(kvval(h))
+//@ spec DepositSlot(d *common.DepositData) mathint = DepositKeyId(kvval(common.DepositUniq(d.Chain, d.Transaction, d.Index)))
+//@ assume func graphUtxoKey
+//@   panics when index > 1024
+//@   modifies nothing
+//@   ensures fresh(result) && kvkey(result) == UK(hash, index)
+//@ assume func graphGhostKey
+//@   modifies nothing
+//@   ensures fresh(result) && kvkey(result) == GK(k)
+//@ assume func graphTransactionKey
+//@   modifies nothing
+//@   ensures fresh(result) && kvkey(result) == TK(txh)
+//@ assume func graphFinalizationKey
+//@   modifies nothing
+//@   ensures fresh(result) && kvkey(result) == FK(txh)
+//@ assume func graphMintKey
+//@   modifies nothing
+//@   ensures fresh(result) && kvkey(result) == MintKeyId(batch)
+//@ assume func graphDepositKey
+//@   requires deposit != nil
+//@   modifies nothing
+//@   ensures fresh(result) && kvkey(result) == DepositSlot(deposit)
+
+//@ -- ═════════ kinds 7..13, 16 (C15/C16/C17/C35): UNIQUE|tx|node  SNAPSHOT|node|be64(round)|hash  TOPOLOGY|be64(order)  SNAPTOPO|hash
+//@ -- WORKSNAPSHOT|node|be64(round)|be64(ts)  ASSETINFO|asset  ASSETTOTAL|asset  WITHDRAWAL|tx ═════════
+//@ uninterp UniqKeyId(n mathint, h mathint) mathint
+//@ uninterp SnapKeyId(n mathint, r mathint, h mathint) mathint
+//@ uninterp TopoKeyId(o mathint) mathint
+//@ uninterp SnapTopoKeyId(h mathint) mathint
+//@ uninterp WorkSnapKeyId(n mathint, r mathint, ts mathint) mathint
+//@ uninterp AssetInfoKeyId(a mathint) mathint
+//@ uninterp AssetTotalKeyId(a mathint) mathint
+//@ uninterp WithdrawalKeyId(h mathint) mathint
+//@ axiom forall n, h mathint :: {UniqKeyId(n, h)} keykind(UniqKeyId(n, h)) == 7 && keyhid(UniqKeyId(n, h)) == h && keynode(UniqKeyId(n, h)) == n
+//@ axiom forall n, r, h mathint :: {SnapKeyId(n, r, h)} keykind(SnapKeyId(n, r, h)) == 8 && keyhid(SnapKeyId(n, r, h)) == h && keynode(SnapKeyId(n, r, h)) == n && (0 <= r && r < 18446744073709551616 ==> keynum(SnapKeyId(n, r, h)) == r)
+//@ -- TopoKeyId(o) is meaningful for 0 <= o < 2^64 only (the be64 encoding); every topology key carries the prefix graphPrefixTopology
+//@ axiom forall o mathint :: {TopoKeyId(o)} keykind(TopoKeyId(o)) == 9 && (0 <= o && o < 18446744073709551616 ==> keynum(TopoKeyId(o)) == o && badger.keypfx(TopoKeyId(o), strkey(graphPrefixTopology)) == 0)
+//@ axiom forall h mathint :: {SnapTopoKeyId(h)} keykind(SnapTopoKeyId(h)) == 10 && keyhid(SnapTopoKeyId(h)) == h && badger.keypfx(SnapTopoKeyId(h), strkey(graphPrefixTopology)) != 0
+//@ axiom forall n, r, ts mathint :: {WorkSnapKeyId(n, r, ts)} keykind(WorkSnapKeyId(n, r, ts)) == 11 && keynode(WorkSnapKeyId(n, r, ts)) == n
+//@ -- C26 (iterator over WORKSNAPSHOT|node|round): every such key carries the first 52 bytes of the round's ts == 0 key as a prefix, and a key
+//@ -- that starts with those 52 bytes (they begin with "WORKSNAPSHOT") is a WORKSNAPSHOT key
+//@ axiom forall n, r, ts mathint :: {WorkSnapKeyId(n, r, ts)} badger.keypfx(WorkSnapKeyId(n, r, ts), kvsub(WorkSnapKeyId(n, r, 0), 0, 52)) == 0
+//@ axiom forall n, r, k mathint :: {badger.keypfx(k, kvsub(WorkSnapKeyId(n, r, 0), 0, 52))} badger.keypfx(k, kvsub(WorkSnapKeyId(n, r, 0), 0, 52)) == 0 ==> keykind(k) == 11
+//@ axiom forall a mathint :: {AssetInfoKeyId(a)} keykind(AssetInfoKeyId(a)) == 12 && keyhid(AssetInfoKeyId(a)) == a
+//@ axiom forall a mathint :: {AssetTotalKeyId(a)} keykind(AssetTotalKeyId(a)) == 13 && keyhid(AssetTotalKeyId(a)) == a
+//@ axiom forall h mathint :: {WithdrawalKeyId(h)} keykind(WithdrawalKeyId(h)) == 16 && keyhid(WithdrawalKeyId(h)) == h
+//@ -- byte order of the fixed-width big-endian keys of ONE prefix == numeric order (binary.BigEndian: the most significant byte comes first)
+//@ axiom forall x, y mathint :: {badger.keylt(TopoKeyId(x), TopoKeyId(y))} 0 <= x && x < 18446744073709551616 && 0 <= y && y < 18446744073709551616 ==> (badger.keylt(TopoKeyId(x), TopoKeyId(y)) <==> x < y)
+//@ -- kind 15 (CUSTODIANUPDATE) has no constructor here yet (kind 14 NODESTATEQUEUE: see the C27 section below): they only occur in the assumed frames of the writers called by writeUTXO.
+//@ spec UQK(n crypto.Hash, h crypto.Hash) mathint = UniqKeyId(kvval(n), kvval(h))
+//@ spec SK(n crypto.Hash, r mathint, h crypto.Hash) mathint = SnapKeyId(kvval(n), r, kvval(h))
+//@ spec AIK(a crypto.Hash) mathint = AssetInfoKeyId(kvval(a))
+//@ spec ATK(a crypto.Hash) mathint = AssetTotalKeyId(kvval(a))
+//@ -- aliases (C35's names)
+//@ spec SnapshotKeyId(n mathint, r mathint, h mathint) mathint = SnapKeyId(n, r, h)
+//@ spec TP(o mathint) mathint = TopoKeyId(o)
+//@ spec STK(h crypto.Hash) mathint = SnapTopoKeyId(kvval(h))
+//@ spec IsTopoKey(k mathint) bool = k == TopoKeyId(keynum(k)) && 0 <= keynum(k) && keynum(k) < 18446744073709551616
+//@ assume func graphUniqueKey
+//@   modifies nothing
+//@   ensures fresh(result) && kvkey(result) == UQK(nodeId, txh)
+//@ assume func graphSnapshotKey
+//@   modifies nothing
+//@   ensures fresh(result) && len(result) > 0 && kvkey(result) == SK(nodeId, round, snap) && kvval(result) == KeyAsVal(kvkey(result))
+//@ assume func graphTopologyKey
+//@   modifies nothing
+//@   ensures fresh(result) && len(result) > 0 && kvkey(result) == TopoKeyId(order) && kvval(result) == KeyAsVal(kvkey(result))
+//@ -- graphTopologyOrder slices key[8:] and reads 8 bytes: it panics on anything shorter than a topology key
+//@ assume func graphTopologyOrder
+//@   requires [topo-key] IsTopoKey(kvkey(key))
+//@   modifies nothing
+//@   ensures result == keynum(kvkey(key))
+//@ assume func graphSnapTopologyKey
+//@   modifies nothing
+//@   ensures fresh(result) && len(result) > 0 && kvkey(result) == SnapTopoKeyId(kvval(hash))
+//@ assume func graphWorkSnapshotKey
+//@   modifies nothing
+//@   ensures fresh(result) && len(result) == 60 && kvkey(result) == WorkSnapKeyId(kvval(nodeId), round, ts) -- 12 + 32 + 8 + 8 bytes (C26: removeSnapshotWorksForRound slices off the last 8)
+//@ assume func graphAssetInfoKey
+//@   modifies nothing
+//@   ensures fresh(result) && kvkey(result) == AIK(id)
+//@ assume func graphAssetTotalKey
+//@   modifies nothing
+//@   ensures fresh(result) && kvkey(result) == ATK(id)
+//@ assume func graphWithdrawalClaimKey
+//@   modifies nothing
+//@   ensures fresh(result) && kvkey(result) == WithdrawalKeyId(kvval(tx))
+
+//@ -- ═════════ kind 14 (C27): NODESTATEQUEUE | be64(timestamp) | signer spend key (8 + 32 bytes after the prefix; nearest neighbour "NODEOPERATION"
+//@ -- differs at byte 4). keynum = timestamp, keyhid = id of the 32 signer bytes; byte order: the big-endian timestamp is compared first. ═════════
+//@ uninterp NodeKeyId(ts mathint, s mathint) mathint
+//@ axiom forall ts, s mathint :: {NodeKeyId(ts, s)} keykind(NodeKeyId(ts, s)) == 14 && keyhid(NodeKeyId(ts, s)) == s && badger.keypfx(NodeKeyId(ts, s), strkey(graphPrefixNodeStateQueue)) == 0 &&
+//@     (0 <= ts && ts < 18446744073709551616 ==> keynum(NodeKeyId(ts, s)) == ts)
+//@ axiom forall t1, s1, t2, s2 mathint :: {badger.keylt(NodeKeyId(t1, s1), NodeKeyId(t2, s2))} 0 <= t1 && t1 < 18446744073709551616 && 0 <= t2 && t2 < 18446744073709551616 ==>
+//@     (t1 < t2 ==> badger.keylt(NodeKeyId(t1, s1), NodeKeyId(t2, s2))) && (badger.keylt(NodeKeyId(t1, s1), NodeKeyId(t2, s2)) ==> t1 <= t2)
+//@ spec IsNodeKey(k mathint) bool = k == NodeKeyId(keynum(k), keyhid(k)) && 0 <= keynum(k) && keynum(k) < 18446744073709551616
+//@ assume func nodeStateQueueKey
+//@   modifies nothing
+//@   ensures fresh(result) && len(result) > 0 && kvkey(result) == NodeKeyId(timestamp, kvval(signer))
+
+//@ -- ═════════ kinds 21..23 (C26): WORKCHECKPOINT | node   WORKPROPOSE | node | be32(day)   WORKVOTE | node | be32(day)   (the four WORK… prefixes
+//@ -- share "WORK" and differ at byte 4: 'C', 'P', 'V', 'S') ═════════
+//@ uninterp OffKeyId(n mathint) mathint
+//@ uninterp LeadKeyId(n mathint, day mathint) mathint
+//@ uninterp SignKeyId(n mathint, day mathint) mathint
+//@ axiom forall n mathint :: {OffKeyId(n)} keykind(OffKeyId(n)) == 21 && keyhid(OffKeyId(n)) == n
+//@ axiom forall n, d mathint :: {LeadKeyId(n, d)} keykind(LeadKeyId(n, d)) == 22 && keyhid(LeadKeyId(n, d)) == n && (0 <= d && d < 4294967296 ==> keynum(LeadKeyId(n, d)) == d)
+//@ axiom forall n, d mathint :: {SignKeyId(n, d)} keykind(SignKeyId(n, d)) == 23 && keyhid(SignKeyId(n, d)) == n && (0 <= d && d < 4294967296 ==> keynum(SignKeyId(n, d)) == d)
+//@ assume func graphWorkOffsetKey
+//@   modifies nothing
+//@   ensures fresh(result) && len(result) > 0 && kvkey(result) == OffKeyId(kvval(nodeId))
+//@ assume func graphWorkLeadKey
+//@   modifies nothing
+//@   ensures fresh(result) && len(result) > 0 && kvkey(result) == LeadKeyId(kvval(nodeId), day)
+//@ assume func graphWorkSignKey
+//@   modifies nothing
+//@   ensures fresh(result) && len(result) > 0 && kvkey(result) == SignKeyId(kvval(nodeId), day)
+
+//@ -- ═════════ kinds 17..19 (C20/C28, read by C15's Debug block): ROUND|hash  LINK|Blake3(from|to)  CONSENSUSSNAPSHOT|be64(ts)|hash ═════════
+//@ -- RoundKeyId is invertible (keyhid). LinkKeyId is NOT assumed injective in (from, to): that would be collision freeness of Blake3; no clause needs it.
+//@ uninterp RoundKeyId(h mathint) mathint
+//@ uninterp LinkKeyId(f mathint, t mathint) mathint
+//@ uninterp ConsKeyId(ts mathint, h mathint) mathint
+//@ axiom forall h mathint :: {RoundKeyId(h)} keykind(RoundKeyId(h)) == 17 && keyhid(RoundKeyId(h)) == h
+//@ axiom forall f, t mathint :: {LinkKeyId(f, t)} keykind(LinkKeyId(f, t)) == 18
+//@ axiom forall t, h mathint :: {ConsKeyId(t, h)} keykind(ConsKeyId(t, h)) == 19 && keyhid(ConsKeyId(t, h)) == h && (0 <= t && t < 18446744073709551616 ==> keynum(ConsKeyId(t, h)) == t)
+//@ spec RK(h crypto.Hash) mathint = RoundKeyId(kvval(h))
+//@ spec LK(f crypto.Hash, t crypto.Hash) mathint = LinkKeyId(kvval(f), kvval(t))
+//@ -- ConsKey(k, ts): k is (the id of) a CONSENSUSSNAPSHOT key with timestamp ts
+//@ spec ConsKey(k mathint, ts mathint) bool = keykind(k) == 19 && keynum(k) == ts
+//@ assume func graphRoundKey
+//@   modifies nothing
+//@   ensures fresh(result) && kvkey(result) == RK(hash)
+//@ assume func graphLinkKey
+//@   modifies nothing
+//@   ensures fresh(result) && kvkey(result) == LK(from, to)
+//@ assume func graphConsensusSnapshotKey
+//@   modifies nothing
+//@   ensures fresh(result) && kvkey(result) == ConsKeyId(ts, kvval(snap))
+
+//@ -- ═════════ kinds 30..32, cache DB (C23): CACHETRANSACTIONQUEUE|be64(ts)|hash (21 + 8 + 32 = 61 bytes)  CACHETRANSACTIONORDER|hash  CACHETRANSACTIONPAYLOAD|hash ═════════
+//@ -- an ORDER/PAYLOAD key does not carry the QUEUE prefix; bytes [29, 61) of a queue key are the hash (kvsub); keynum = ts, keyhid = id of the 32 hash bytes
+//@ uninterp QueueKeyId(ts mathint, h mathint) mathint
+//@ uninterp OrderKeyId(h mathint) mathint
+//@ uninterp PayloadKeyId(h mathint) mathint
+//@ axiom forall ts, h mathint :: {QueueKeyId(ts, h)} keykind(QueueKeyId(ts, h)) == 30 && keyhid(QueueKeyId(ts, h)) == h && badger.keylen(QueueKeyId(ts, h)) == 61 && kvsub(QueueKeyId(ts, h), 29, 61) == h &&
+//@     badger.keypfx(QueueKeyId(ts, h), strkey(cachePrefixTransactionQueue)) == 0 && (0 <= ts && ts < 18446744073709551616 ==> keynum(QueueKeyId(ts, h)) == ts)
+//@ axiom forall h mathint :: {OrderKeyId(h)} keykind(OrderKeyId(h)) == 31 && keyhid(OrderKeyId(h)) == h && badger.keypfx(OrderKeyId(h), strkey(cachePrefixTransactionQueue)) != 0
+//@ axiom forall h mathint :: {PayloadKeyId(h)} keykind(PayloadKeyId(h)) == 32 && keyhid(PayloadKeyId(h)) == h && badger.keypfx(PayloadKeyId(h), strkey(cachePrefixTransactionQueue)) != 0
+//@ spec QK(ts mathint, h crypto.Hash) mathint = QueueKeyId(ts, kvval(h))
+//@ spec OK(h crypto.Hash) mathint = OrderKeyId(kvval(h))
+//@ spec PK(h crypto.Hash) mathint = PayloadKeyId(kvval(h))
+//@ spec IsQueueKey(k mathint) bool = k == QueueKeyId(keynum(k), keyhid(k)) && 0 <= keynum(k) && keynum(k) < 18446744073709551616
+//@ assume func cacheTransactionCacheKey
+//@   modifies nothing
+//@   ensures fresh(result) && len(result) > 0 && kvkey(result) == PK(hash)
+//@ assume func cacheTransactionOrderKey
+//@   modifies nothing
+//@   ensures fresh(result) && len(result) > 0 && kvkey(result) == OK(hash)
+//@ -- the queue key of (0, zero hash) is the LEAST queue key (all-zero suffix after the common prefix): where CacheRetrieveTransactions seeks to
+//@ assume func cacheTransactionQueueKey
+//@   modifies nothing
+//@   ensures fresh(result) && len(result) > 0 && kvkey(result) == QK(ts, hash)
+//@   ensures [least] ts == 0 && !hash.HasValue() ==> forall t2, h2 mathint :: {badger.keylt(QueueKeyId(t2, h2), kvkey(result))} !badger.keylt(QueueKeyId(t2, h2), kvkey(result))
